@@ -39,8 +39,8 @@ func openLast(r Rnd, piece []*Dir) (hoisted []*Dir) {
 	case "Description", "INCLUDE", "PASTE", "MACRO":
 		return nil
 	}
-	if len(d.Children) == 0 {
-		return nil
+	if len(d.Children) == 0 || d.Explicit == "yes" {
+		return nil // (a context that was closed on purpose stays closed)
 	}
 	for _, c := range d.Children {
 		if c.Kw == "INCLUDE" || c.Kw == "PASTE" {
